@@ -124,6 +124,23 @@ fn p_str_ref() {
     kani::cover!(a == b, "empty string");
     kani::cover!(!two && a == 0 && b == 5, "whole non-ASCII string");
 }
+fn str_case(s: &str, blen: usize) {
+    let mut rec = Rec::default();
+    let obj = trait_obj!(imp(&mut rec) as Shapes);
+    obj.st_ref(s);
+    core::mem::forget(obj);
+    assert!(rec.calls == 1 && rec.tag == 7, "C02 exactly one call of the right method");
+    assert!(rec.ptr == s.as_ptr() as usize && rec.len == blen, "C02 a non-ASCII string arrives with the same address and BYTE length");
+}
+#[kani::proof]
+fn p_str_concrete() {
+    // concrete non-ASCII strings (constant-folded): stays decidable whatever the conversion does
+    str_case("", 0);
+    str_case("\u{df}", 2);
+    str_case("na\u{ef}ve caf\u{e9}", 12);
+    str_case("a\u{df}\u{20ac}b\u{1F600}", 11);
+    kani::cover!(true, "end");
+}
 //@ prefix=p_opt kind=property clause=Option<T> (wrapped), Option<&T> (forwarded), Result<T,E> (wrapped): variant and payload arrive and return unchanged
 #[kani::proof]
 fn p_opt_res() {
